@@ -100,7 +100,13 @@ func evaluate(src string, env Env, assignInSource bool) outcome {
 		var o outcome
 		o.panicked = hx.Guard(func() {
 			erp := interpreter.NewECALRuntimeProvider("c14", nil, util.NewMemoryLogger(10))
-			defer erp.Cron.Stop()
+			// Tear down the only thing the provider starts (the cron goroutine; the
+			// processor is never started here). Cron.Stop() of krotik/common can
+			// deadlock with its own 1 s tick (Stop holds the lock and waits for a
+			// receiver, the tick handler waits for the lock), so it is called at
+			// once - microseconds after Start instead of a case duration later -
+			// and never on the path which produces the verdict.
+			go erp.Cron.Stop()
 			erp.Debugger = dbg
 			ast, err := parser.ParseWithRuntime("c14", src, erp)
 			if err == nil {
